@@ -210,6 +210,13 @@ class Objective(Contract):
         cfg = b.cfg
         yield "groups_in_model_order", out.group_names == list(dict.fromkeys(ds.group for ds in cfg.datasets))
         yield "nothing_solved_before_the_first_evaluation", out.n_log_init == 0
+        # every dataset is in exactly the group it names (interleaved declarations included), in declaration order
+        members = [list(g.dataset_models.keys()) if hasattr(g, "dataset_models") else None for g in (getattr(og, "_dataset_group", None) for og in out.groups)]
+        want_members = [[ds.label for ds in cfg.datasets if ds.group == gname] for gname in out.group_names]
+        if all(m is not None for m in members):
+            yield "every_dataset_is_in_the_group_it_names", members == want_members
+            if members != want_members:
+                return
         pos = 0
         expected_total = []
         used_data = []
